@@ -136,7 +136,7 @@ H("t1_bc_n2_o0", T, "C02", TR_ALL + ["C12"], "quick",
 H("t1_mp_n1_o0", T, "C03", TR_ALL, "quick",
   "mpmc N=1, two producers + consumer after a symbolic prefix that may wrap the ring",
   "N=1, prefix <=1 send/recv, 1 op per actor, depth 1, budget 2")
-H("t2_mp_n2_o1", T, "C01", TR_ALL, "quick",
+H("t2_mp_n2_o1", T, "C02", TR_ALL, "quick",
   "mpmc, one producer + two consumers sharing the stream; consumer A's try_recv (speculative read + CAS) preempted everywhere by consumer B's try_recv and the producer",
   "N=2, prefix <=2 sends <=1 recv, 1 op per actor, depth 1, budget 2")
 H("t2_bc_n2_o1", T, "C06", TR_ALL, "quick",
@@ -213,6 +213,9 @@ H("c10_bc_sole_o1", L, "C10", ["C10", "C01", "C02", "C03", "C06"], "quick",
 H("c10_bc_sole_o0", L, "C10", ["C10", "C03", "C06"], "quick",
   "broadcast: producer's try_send (tail recomputation) preempted everywhere by add_stream and a parent receive",
   "N=2, prefix <=2/<=2, budget 2, up to 2 ops per site", rules=ADDRULES)
+H("c03_bc_addstream_o0_n1", L, "C03", ["C03", "C10", "C06"], "quick",
+  "broadcast N=1: producer's try_send on a full ring (tail recomputation) preempted everywhere by add_stream and a parent receive; the new stream must still hold the sender back",
+  "N=1, prefix <=1/<=1, budget 2, up to 2 ops per site", rules=ADDRULES)
 H("c10_bc_sib_o1", L, "C10", ["C10", "C01", "C03", "C06"], "thorough",
   "broadcast: add_stream on one of two handles of the parent stream, preempted by the sibling's receive and the producer's sends",
   "N=2, budget 3, up to 3 ops per site", rules=ADDRULES)
